@@ -84,6 +84,55 @@ def observer(got, pred, sp, call, sg, prog, ctx, part):
         if sol.values and list(sol.values) != want:
             bad('keys of Solution.values differ from the problem variables', {'got': list(sol.values), 'expected': want, 'method': method})
             return
+    replaced_objective(got, pred, call, prog, ctx, part, bad)
+
+
+def term_names(t, out=None):
+    out = set() if out is None else out
+    k = t['k']
+    if k == 'var':
+        out.add(name_of(t['n']))
+    elif k == 'un':
+        term_names(t['a'], out)
+    elif k == 'bin':
+        term_names(t['l'], out)
+        term_names(t['r'], out)
+    return out
+
+
+def replaced_objective(got, pred, call, prog, ctx, part, bad):
+    """The problem's variables were read (and it was solved); the objective is then replaced by a base scalar that mentions
+    fewer variables: the variable list is the one of the CURRENT model - the natural order of those names is the order
+    TLC computed for the original problem restricted to them."""
+    from ..recorder import natkey
+    heap = ctx.cur_heap
+    cons_names = set()
+    for h in (call['b'], call['k']):
+        if h:
+            o = heap[h - 1]
+            for c in ([o] if o['kind'] == 'C' else o.get('cons', [])):
+                term_names(c['den'], cons_names)
+    old = term_names(heap[call['a'] - 1]['den'])
+    for h in range(1, ctx.nb + 1):
+        o = heap[h - 1]
+        if o['kind'] != 'S' or o.get('may') or h == call['a']:
+            continue
+        new = term_names(o['den'])
+        if not new or not (new | cons_names) < (old | cons_names):
+            continue
+        want = sorted(new | cons_names, key=natkey)
+        try:
+            got.minimize(ctx.cur_objs[h])
+            have = [v.name for v in got.variables]
+            n = got.n_variables
+            nb = len(got.get_bounds())
+        except Exception as e:
+            bad('Problem.variables raises %s after the objective was replaced' % type(e).__name__)
+            return
+        part['evaluations'] += 1
+        if have != want or n != len(want) or nb != len(want):
+            bad('variables after replacing the objective are not those of the current model', {'got': have, 'expected': want, 'new_objective': 'h%d' % h})
+        return
 
 
 def check_code_table(log):
